@@ -21,7 +21,7 @@ PROPERTY = "C06"
 MODULES = ["SpatialIndex", "MC_SpatialIndex", "Trace_SpatialIndex"]
 TRACE = ("Trace_SpatialIndex", "Trace_SpatialIndex.cfg")
 EXHAUSTIVE = True
-RULE = ("TLC (GEN_SpatialIndex_[a-d].cfg) emits 12 lanelet families (disjoint, edge-adjacent, stacked, overlapping, nested, "
+RULE = ("TLC (GEN_SpatialIndex_[a-f].cfg) emits 12 lanelet families (disjoint, edge-adjacent, stacked, overlapping, nested, "
         "L-shaped, parallelogram, curved/multi-vertex, four cells around a corner, corner contact, mixed) x every route "
         "sequence of length <= 2 (quick; <= 3 thorough) over builders {from_list(cleanup 0/1), add_each, add_defer, "
         "add_from_network, scenario_add} and follow-ups {deepcopy, deepcopy_orig, pickle, xml, pb, xml_net, pb_net, "
@@ -52,7 +52,7 @@ _KIND = {"rect": "rectangle", "disc": "circle", "poly": "polygon", "group": "gro
 # ---------------------------------------------------------------------------------------------- TLC side
 def _gen_cfgs(ctx):
     stem = "GEN_SpatialIndex3_%s.cfg" if ctx.thorough else "GEN_SpatialIndex_%s.cfg"
-    return [stem % g for g in "abcd"] + ["GEN_SpatialIndex_shape.cfg"]
+    return [stem % g for g in "abcdef"] + ["GEN_SpatialIndex_shape.cfg"]
 
 
 def _run_gen(cfg):
@@ -61,12 +61,15 @@ def _run_gen(cfg):
 
 
 def model_check(ctx):
-    with cf.ThreadPoolExecutor(max_workers=6) as ex:
-        futs = [ex.submit(_run_gen, c) for c in _gen_cfgs(ctx)]          # 5 single-worker JVMs next to the MC run
-        ctx.mc("MC_SpatialIndex", "MC_SpatialIndex4.cfg" if ctx.thorough else "MC_SpatialIndex.cfg", coverage=True,
-               workers=10)
+    with cf.ThreadPoolExecutor(max_workers=7) as ex:
+        futs = [ex.submit(_run_gen, c) for c in _gen_cfgs(ctx)]          # 7 single-worker JVMs next to the MC runs
+        if ctx.thorough:
+            ctx.mc("MC_SpatialIndex", "MC_SpatialIndex4.cfg", coverage=True, workers=8)       # all families, sequences <= 3
+        else:
+            ctx.mc("MC_SpatialIndex", "MC_SpatialIndex.cfg", coverage=True, workers=4)        # all families, sequences <= 2
+            ctx.mc("MC_SpatialIndex", "MC_SpatialIndex3.cfg", coverage=True, workers=4)       # four families, sequences <= 3
         for i in range(1, 6):
-            ctx.mc_expect("MC_SpatialIndex", "DEV_SpatialIndex_%d.cfg" % i, "IndexMirrors", workers=4)
+            ctx.mc_expect("MC_SpatialIndex", "DEV_SpatialIndex_%d.cfg" % i, "IndexMirrors", workers=2)
         for f in futs:
             cfg, cases, r = f.result()
             _GEN[cfg] = cases
@@ -602,13 +605,14 @@ def _exec_shape(case):
     for g in case["probes"]:
         pts = [_move_pt(m, p) for p in g["pts"]] if m else g["pts"]
         common = {"route": route, "routes": routes, "shape": desc, "pts": pts}
-        e = dict(common, op="contains_point", res=[], exc="", sig="shape/contains_point/%s/%s" % (kind, g["cls"]))
+        tag = "route=" + route if route.startswith("set_") else g["cls"]     # attribute assignment: its own signatures
+        e = dict(common, op="contains_point", res=[], exc="", sig="shape/contains_point/%s/%s" % (kind, tag))
         try:
             e["res"] = [int(bool(shape.contains_point(_pt(p)))) for p in pts]
         except Exception as ex:
             e["exc"] = _exc(ex)
         ev.append(e)
-        e2 = dict(common, op="exported_covers", res=[], cp=e["res"], exc="", sig="shape/exported/%s/%s" % (kind, g["cls"]))
+        e2 = dict(common, op="exported_covers", res=[], cp=e["res"], exc="", sig="shape/exported/%s/%s" % (kind, tag))
         try:
             e2["res"] = [_covers(shape, p) for p in pts]
         except Exception as ex:
